@@ -5,6 +5,10 @@ PLANS = {
         "quick": {"runs": 600, "fault_runs": 0, "wall_s": 70, "per_task_s": 120},
         "thorough": {"runs": 60000, "fault_runs": 0, "wall_s": 900, "per_task_s": 300},
     }),
+    "C04": ("bc", {
+        "quick": {"runs": 400, "fault_runs": 100, "wall_s": 70, "per_task_s": 120},
+        "thorough": {"runs": 30000, "fault_runs": 8000, "wall_s": 900, "per_task_s": 300},
+    }),
     "C05": ("dyn", {
         "quick": {"runs": 400, "fault_runs": 100, "wall_s": 70, "per_task_s": 120},
         "thorough": {"runs": 40000, "fault_runs": 10000, "wall_s": 900, "per_task_s": 300},
